@@ -187,12 +187,17 @@ def check_target(sv, target, lst, text, res, case, is_doc):
                         unk3 = True
                     elif v:
                         wi.append(n)
+            import bs4
             gl = c.filter(list(items))
             gg = c.filter(x for x in items)
             gm = sv.filter(text, list(items))
-            res.evaluations += 3
+            # the iterables bs4 itself hands out: a ResultSet (find_all), a tuple, and the same items in reverse order (each item is judged on its own)
+            gr = c.filter(bs4.ResultSet(None, list(items)))
+            gt = c.filter(tuple(items))
+            gv = list(reversed(c.filter(list(reversed(items)))))
+            res.evaluations += 6
             if not unk3:
-                for nm, g in (('filter(list)', gl), ('filter(generator)', gg), ('module.filter(list)', gm)):
+                for nm, g in (('filter(list)', gl), ('filter(generator)', gg), ('module.filter(list)', gm), ('filter(ResultSet)', gr), ('filter(tuple)', gt), ('filter(reversed list)', gv)):
                     if ids(g) != ids(wi):
                         bad(nm, 'content', f'{nm} with {text!r} = {[_sel.brief(x) for x in g]} want {[_sel.brief(x) for x in wi]}')
             # match / closest on the target itself
@@ -610,7 +615,7 @@ def check(tier, seed):
                  'custom/positional combinations; non-trivial = the reference selects a non-empty proper subset (main) or the '
                  'call returns a non-empty answer (args)'),
         'exhaustive': not info['cap_hit'],
-        'entry_points': list(ENTRY) + ['filter(list)', 'filter(generator)'], 'limits': list(LIMITS),
+        'entry_points': list(ENTRY) + ['filter(list)', 'filter(generator)', 'filter(ResultSet)', 'filter(tuple)', 'filter(reversed list)'], 'limits': list(LIMITS),
     }
     return {'result': res, 'coverage': cov, 'info': info,
             'assumptions': ['filter(iterable) judges each Tag item as match(item) does (the item is its own scope)',
